@@ -258,12 +258,28 @@ def model_run(hist, prefix=""):
                 m = re.search(re.escape((prefix + CAL + urllib.parse.quote(n)).encode()) + rb"</[^>]*href>.*?getetag>([^<]*)<", pf["body"], re.S)
                 if m and m.group(1).replace(b"&quot;", b'"') != M[n][1].encode():
                     return dict(step=step, expected=f"PROPFIND getetag {M[n][1]}", observed=m.group(1), log=log)
+            # C17: multiget of every emitted href (+ one that does not exist) answers each exactly once
+            asked = [prefix + CAL + urllib.parse.quote(n) for n in sorted(M)] + [prefix + CAL + "missing.ics"]
+            body = ("<C:calendar-multiget xmlns:D='DAV:' xmlns:C='urn:ietf:params:xml:ns:caldav'><D:prop><D:getetag/>"
+                    "<C:calendar-data/></D:prop>" + "".join(f"<D:href>{h}</D:href>" for h in asked) + "</C:calendar-multiget>").encode()
+            mg = s.request("REPORT", CAL, {"Content-Type": "text/xml", "Depth": "1"}, body)
+            if mg["status"] != 207:
+                return dict(step=step, expected="multiget 207", observed=f"{mg['status']} {mg['body'][:120]}", log=log)
+            resp = re.findall(rb"<[^>]*response>(.*?)</[^>]*response>", mg["body"], re.S)
+            if len(resp) != len(asked):
+                return dict(step=step, expected=f"{len(asked)} multiget responses", observed=len(resp), log=log)
+            for n in sorted(M):
+                h = (prefix + CAL + urllib.parse.quote(n)).encode()
+                mine = [r_ for r_ in resp if b">" + h + b"<" in r_]
+                if len(mine) != 1 or b"200 OK" not in mine[0] or M[n][1].encode().replace(b'"', b"&quot;") not in mine[0].replace(b'"', b"&quot;"):
+                    return dict(step=step, expected=f"multiget answers {h.decode()} once with 200 and etag {M[n][1]}",
+                                observed=(mine[0][:200].decode("utf-8", "replace") if mine else "no response"), log=log)
         return None
     finally:
         s.close()
 
 
-NAMES = ["a.ics", "b c.ics", "d%41.ics"]
+NAMES = ["a.ics", "b c.ics", "d%41.ics", "q?x.ics", "h#y;z+.ics"]
 
 
 def http_alphabet():
